@@ -57,6 +57,8 @@ type vc08Case struct {
 	Old  *vc08OptsIn `json:"old,omitempty"`  // kind qraw: receiver value FromQuery decodes onto
 	Num  int64       `json:"num,omitempty"`  // kinds st, pt, md: the status mask / pin type / pin mode
 	Text []byte      `json:"text,omitempty"` // kind straw: an arbitrary status string
+	Type string      `json:"type,omitempty"` // kinds mp, js: record type
+	Tape []int       `json:"tape,omitempty"` // kinds mp, js: choices the value is built from
 }
 
 // which universe a token's valid values come from
@@ -626,19 +628,21 @@ func vc08GenNames(r *vRand) vc08Case {
 
 func vc08Gen(r *vRand) vc08Case {
 	switch x := r.intn(100); {
-	case x < 30:
+	case x < 20:
 		p := vc08GenPin(r, r.chance(35))
 		return vc08Case{Kind: "pb", Pin: &p}
-	case x < 45:
+	case x < 32:
 		m := vc08GenMsg(r)
 		return vc08Case{Kind: "pbmsg", Msg: &m}
-	case x < 60:
+	case x < 44:
 		o := vc08GenOpts(r, r.chance(30))
 		return vc08Case{Kind: "q", Opts: &o}
-	case x < 75:
+	case x < 55:
 		return vc08GenQRaw(r)
-	default:
+	case x < 68:
 		return vc08GenNames(r)
+	default:
+		return vc08GenCodec(r)
 	}
 }
 
@@ -661,8 +665,15 @@ func vc08Run(out *vOut, c vc08Case) {
 			vc08RunQRaw(out, c)
 		case "st", "straw", "pt", "md":
 			vc08RunNames(out, c)
+		case "mp", "js":
+			vc08RunCodec(out, c)
 		}
 	})
+}
+
+func TestVerifC08Explore(t *testing.T) {
+	vc08Init()
+	vc08Explore(vEnvInt("VERIF_N", 3000))
 }
 
 func TestVerifC08(t *testing.T) {
